@@ -231,9 +231,9 @@ def w_programs(ctx, rng, i):
             a, b = sorted(int(v) for v in rng.integers(-n - 1, n + 2, 2))
             st = int(rng.choice([1, 1, 2, 3, -1, -2]))
             sl = [slice(a, b), slice(None, b), slice(a, None), slice(None, None, st), slice(a, b, abs(st))][int(rng.integers(5))]
-            if len(model[sl]) == 0:
-                continue
-            x, model = x[sl], model[sl]
+            x, model = x[sl], model[sl]              # empty results included: an empty sequence is a valid sequence (all laws hold with len 0)
+            if not model:
+                ctx.bin("prog.empty", "reached")
             prog.append(("slice", sl.start is None, sl.stop is None, sl.step))
         else:
             if not model:
